@@ -26,6 +26,10 @@ def gen_program(rng):
 
 
 def run(ctx):
+    # Tier B: MSQueue.tla (enqueue / do_dequeue, one label per atomic access, ghost abstract queue; a plain store instead of the link CAS must fail)
+    vlib.model_check_many(ctx, [dict(module_rel="queue/MSQueueMC.tla", cfg_rel="queue/MSQueue_q.cfg" if ctx.quick() else "queue/MSQueue_t.cfg", workers=6, timeout=3000),
+                                dict(module_rel="queue/MSQueueMC.tla", cfg_rel="queue/MSQueue_bad_blindlink.cfg", workers=2, expect_violation="ListIsQueue")] +
+                               ([] if ctx.quick() else [dict(module_rel="queue/MSQueueMC.tla", cfg_rel="queue/MSQueue_notailcheck.cfg", workers=8, timeout=3000)]), par=3)
     progs = list(PROGRAMS) + [gen_program(ctx.rng) for _ in range(1 if ctx.quick() else 6)]
     jobs = make_jobs(ctx, "queue", VARIANTS, progs)
     vlib.run_jobs(ctx, jobs)
